@@ -312,8 +312,10 @@ fn families() -> Vec<Family> {
             parsers: vec![("parse_digitally_signed_old", |i| mk(parse_digitally_signed_old(i), |s| format!("{:?}", conv::signed(s)), |o, s| visit::signed(o, s)))],
         },
         Family {
-            // SSLv2-compatible ClientHello bytes (15-bit record length): whatever the record parsers make of them, it is decided by the
-            // record alone; once the declared record is present, bytes behind it change neither value nor outcome
+            // SSLv2-compatible ClientHello bytes (15-bit record length): whatever the single-record parser makes of them, it is decided by the
+            // record alone; once the declared record is present, bytes behind it change neither value nor outcome. (The multi-record parser is
+            // not a locality subject: its value legitimately grows with every further record - a first version listed it here and the
+            // libFuzzer campaign on raw bytes promptly produced valid records followed by valid records.)
             name: "sslv2-hello",
             gen: |t| {
                 let mut e = Enc::new();
@@ -323,7 +325,6 @@ fn families() -> Vec<Family> {
             declared: |b| if b.len() >= 2 && b[0] & 0x80 != 0 { Some(2 + (((b[0] & 0x7f) as usize) << 8 | b[1] as usize)) } else { None },
             parsers: vec![
                 ("parse_tls_plaintext", |i| mk(parse_tls_plaintext(i), |p| format!("{:?} {:?}", hdr_fp(&p.hdr), conv::msgs(&p.msg)), |o, p| p.msg.iter().for_each(|m| visit::msg(o, m)))),
-                ("tls_parser_many", |i| mk(tls_parser_many(i), |v| format!("{:?}", v.iter().map(|p| (hdr_fp(&p.hdr), conv::msgs(&p.msg))).collect::<Vec<_>>()), |o, v| v.iter().for_each(|p| p.msg.iter().for_each(|m| visit::msg(o, m))))),
             ],
         },
         Family {
